@@ -770,6 +770,34 @@ def resolve_gets_deep_copy(repo, rep):
                             % r9.sites)
 
 
+def call_sequence(cls, fn, target, depth=0):
+    """the self.* calls of a method in source order; a private helper that
+    itself makes the `target` call is replaced by its own sequence, a helper
+    that only asserts types is left out"""
+    from ..cfg import assertion_only
+    out = []
+    for st_ in fn.body:
+        for c_ in ast.walk(st_):
+            if not isinstance(c_, ast.Call):
+                continue
+            d_ = dotted(c_.func) or ''
+            if not d_.startswith('self.'):
+                continue
+            h_ = cls.find_method(d_[5:]) if d_.count('.') == 1 and \
+                d_[5:6] == '_' else None
+            sub = call_sequence(cls, h_, target, depth + 1) \
+                if h_ is not None and h_ is not fn and depth < 2 \
+                else []
+            if target in sub and d_ != target:
+                out += sub
+            elif h_ is not None and all(
+                    assertion_only(x_) for x_ in h_.body):
+                pass        # a helper that only asserts types
+            else:
+                out.append(d_)
+    return out
+
+
 def namespace_validated_first(repo, rep, rid, select):
     """Every operation of the mock server's main provider that takes a
     namespace validates it (`self.validate_namespace(namespace)`) before it
@@ -798,33 +826,7 @@ def namespace_validated_first(repo, rep, rid, select):
         n += 1
         r.sites += 1
         r.functions.add(f.fq)
-        from ..cfg import assertion_only
-
-        def sequence(fn, depth=0):
-            """self.* calls in order; a private helper that itself validates
-            the namespace is replaced by its own sequence"""
-            out = []
-            for st_ in fn.body:
-                for c_ in ast.walk(st_):
-                    if not isinstance(c_, ast.Call):
-                        continue
-                    d_ = dotted(c_.func) or ''
-                    if not d_.startswith('self.'):
-                        continue
-                    h_ = mp.find_method(d_[5:]) if d_.count('.') == 1 and \
-                        d_[5:6] == '_' else None
-                    sub = sequence(h_, depth + 1) \
-                        if h_ is not None and h_ is not fn and depth < 2 \
-                        else []
-                    if 'self.validate_namespace' in sub:
-                        out += sub
-                    elif h_ is not None and all(
-                            assertion_only(x_) for x_ in h_.body):
-                        pass        # a helper that only asserts types
-                    else:
-                        out.append(d_)
-            return out
-        names = sequence(f)
+        names = call_sequence(mp, f, 'self.validate_namespace')
         idx = names.index('self.validate_namespace') \
             if 'self.validate_namespace' in names else None
         ok = idx is not None and all(
